@@ -60,6 +60,7 @@ def run_workers(pid, tier, seed, shards, jobs, tmp):
     envv["PYTHONHASHSEED"] = "0"
     envv["PYTHONDONTWRITEBYTECODE"] = "1"
     envv["VERIF_HOME"] = HOME
+    envv["VERIF_WORK_BASE"] = tmp          # every worker's scratch directory lives inside the run's own directory, which is removed
     deadline = time.time() + WALL_LIMIT[tier]
     errors = []
     while pending or procs:
